@@ -846,6 +846,12 @@ class HTTP1ServerConnection:
                     return
                 if not ret:
                     return
+                if self.stream.closed():
+                    # The connection was closed after the last response (e.g.
+                    # "Connection: close"). Requests that were pipelined behind
+                    # it may already be in the read buffer; they must not be
+                    # processed (RFC 9112 section 9.6).
+                    return
                 await asyncio.sleep(0)
         finally:
             delegate.on_close(self)
